@@ -260,9 +260,25 @@ func (n *RaftNode) Restore(rc io.ReadCloser) error {
 			return err
 		}
 
+		// queries must not run while the store is being overwritten
+		n.applyMu.Lock()
+		defer n.applyMu.Unlock()
+
 		if err := n.db.LoadSnapshot(reader); err != nil {
 			return err
 		}
+
+		// The transferred batches changed the trees underneath the balloon:
+		// its in-memory structures (the hyper tree's batch cache above all)
+		// still describe the state before the transfer. Rebuild them from
+		// the store, as a restart would.
+		restored, err := balloon.NewBalloonWithLogger(n.db, n.hasherF, n.log.Named("balloon"))
+		if err != nil {
+			return err
+		}
+		stale := n.balloon
+		n.balloon = restored
+		stale.Close()
 	}
 
 	n.loadState()
